@@ -217,3 +217,16 @@ def t_dot_pb_vector():
         err, msg = 1., 'raised %s' % type(e).__name__
     report('F-C03-8', err < 1e-12, 'gradient of sum(w*dot(A,x)) w.r.t. the matrix A (vector x) vs outer(w,x): %s' % msg)
 t_dot_pb_vector()
+
+
+def t_pb_tile():
+    x0 = numpy.array([1., 2., 3.])
+    cg = CGraph(); x = Function(x0.copy()); y = algopy.tile(x, 2)
+    f = algopy.sum(y * y); cg.trace_off()
+    cg.independentFunctionList = [x]; cg.dependentFunctionList = [f]
+    try:
+        g = cg.gradient(x0); err = abs(g - 4 * x0).max(); msg = 'err %.2g' % err
+    except Exception as e:
+        err, msg = 1., 'raised %s' % type(e).__name__
+    report('F-C03-9', err < 1e-12, 'gradient of sum(tile(x,2)**2) vs 4x: %s' % msg)
+t_pb_tile()
